@@ -31,6 +31,7 @@ META = {
         "C01.P3 array/list: header carries the element count, elements are encoded in order, decode threads the cursor through the children",
         "C01.P4 every normal path of every decode stores the decoded value",
         "C01.T3 format codes pairwise distinct and equal to E5",
+        "C01.T4 a Dynamic decodes every concrete item class it can hold (format-code table complete, decoding restarts at the item start)",
     ],
     "does_not_decide": ["equality of get() with the Python value for floats (binary32 rounding is runtime numerics)", "what set() accepts for exotic inputs (str->int conversion etc.)"],
     "assumptions": ["struct.pack/unpack follow IEEE 754 / two's complement big-endian for '>' formats (stdlib)"],
@@ -344,3 +345,10 @@ def run(ctx):
     check_containers(ctx)
     check_decode_stores(ctx)
     check_codes(ctx)
+    from .c02 import check_dynamic
+
+    sub = type(ctx)(ctx.prop, ctx.tier, ctx.seed, ctx.repo)
+    check_dynamic(sub, "C01.T4")
+    for o in sub.obligations:
+        if o["key"] in ("table", "nested", "scalar", "restart", "select", "peek-header"):  # what a round trip of the library's own encodings needs
+            ctx.obligations.append(o)
